@@ -26,7 +26,7 @@ func init() {
 			"C04.keys: the reader switches on the marshal key constants after strings.ToLower, and the constants are lower-case. " +
 			"C04.sep: the text parser's scanning loop as a transfer table over a partition of all rune values × (nothing kept yet / something kept), by abstract interpretation of the loop body: space is skipped everywhere, '_' and no-break space only after the first digit, digits are kept, every other rune ends the number — so what the pretty formatter emits (\" \") is skipped before and between digits and before the unit; units are letters only, so the hand-made quoting needs no escaping. C04.limit: MaxInputLength admits the longest emitted form. C04.render: String / PrettyString are the formatter's bytes converted, nothing inserted or replaced afterwards, and those bytes are the decimal digits of the shortened value (grouped in threes under FormatPretty) followed by the unit (C13.methods and C13.format under this property)." +
 			" Added after the second rule audit: C04.reader files the whole of C12.keys (decodeValue/decodeUnit tables, newOrError, arms, skipper) and C08.object's 'number error' (the parsed number is handed on only where ParseUint's error is nil); C04.quote reads exactly one construction of the string form (one quote-appending append, one copy, one byte store) and every return that hands back the text goes through it; a string form built by appends alone is evaluated as a whole ('\"' + text + '\"')." +
-			" C04.reader also carries C12.zero (member limit switched off refuses nothing) and the default member limit (0 or at least 2). C04.nested: C17.ro for the size readers — a value nested in a document is handed a slice of the document's own buffer, so a reader that writes through its input damages the document around it. Since audit round 3: every success return of MarshalJSON is the quoted buffer or the result of one call (object writer, strconv.AppendUint); in the member loop no condition measures, and no store goes through, what a member decoder handed back (followed through every phi); the alias analysis follows helpers of the module that return (a part of) their argument.",
+			" C04.reader also carries C12.zero (member limit switched off refuses nothing) and the default member limit (0 or at least 2). C04.nested: C17.ro for the size readers — a value nested in a document is handed a slice of the document's own buffer, so a reader that writes through its input damages the document around it. Since audit round 3: every success return of MarshalJSON is the quoted buffer or the result of one call — of a function of the module (the object writer) or of strconv.AppendUint; in the member loop no condition measures, and no store goes through, what a member decoder handed back (followed through every phi); the alias analysis follows helpers of the module that return (a part of) their argument.",
 		NotDecided:  []string{"the arithmetic composition for all 2^64 values (digit grouping composed with ParseUint of the regrouped digits)", "nested encoding/json behaviour (stdlib)"},
 		Assumptions: []string{"strconv.AppendUint/FormatUint print canonical decimal; ParseUint inverts them"},
 		Technique:   "decision-table extraction + constant/table agreement + SSA idiom rules",
